@@ -744,3 +744,118 @@ def q_wif(env, name=None):
                 qr.undecided.append(f"wif: '{bad}' not reproduced natively with key {keyb.hex()}")
         finish(qr, ex)
     return qr
+
+
+# ----------------------------------------------------------------------------- C07: address string round trip (every valid address is accepted)
+def _b58_digits(n):
+    d = 0
+    while n:
+        n //= 58
+        d += 1
+    return d
+
+
+def q_address_string(env, name=None):
+    """P2PKHAddress::from_string_impl(to_string_impl(a)) == a for every prefix and hash.  Base58 is an injective constructor; the only
+    character-level fact used is the LENGTH of a Base58 string: one '1' per leading zero byte plus the number of base-58 digits of
+    the rest (bounds computed exactly for each count of leading zero bytes of the 25-byte payload)."""
+    from .executor import Exec
+    from .models import MODELS, ok, err
+    from .models_decode import m_bs58_decode, m_bs58_into_vec
+    import re as _re
+    qr = QResult(name or "address_string")
+    P = env.P
+    sha = uf("SHA256D", SEQ, z3.BitVecSort(256))
+    f_to = env.fn("address::P2PKHAddress::to_string_impl")
+    f_from = env.fn("address::P2PKHAddress::from_string_impl")
+    B58LEN = uf("BASE58_LENGTH", SEQ, z3.BitVecSort(64))
+
+    def m_str_len(ex, a, callee, canon):
+        v = a[0]
+        while isinstance(v, Ptr):
+            v = v.get()
+        if not (isinstance(v, Opaque) and v.tag == "b58string" and isinstance(v.payload, Bytes)):
+            raise Unsupported("str::len of " + repr(v)[:60])
+        items = ex.seq_items(v.payload.s)
+        if items is None:
+            raise Unsupported("length of a Base58 string over a payload of symbolic length")
+        n = len(items)
+        L = B58LEN(v.payload.s)
+        # leading zero bytes z -> z ones + digits(rest); rest has r = n - z bytes with a non-zero first byte (or is empty)
+        for z in range(n + 1):
+            r = n - z
+            lo = _b58_digits(256 ** (r - 1)) if r >= 1 else 0
+            hi = _b58_digits(256 ** r - 1) if r >= 1 else 0
+            cond = z3.And(*[items[i] == 0 for i in range(z)] + ([items[z] != 0] if z < n else []))
+            ex.pc_assume(z3.Implies(cond, z3.And(z3.UGE(L, z + lo), z3.ULE(L, z + hi))))
+        return Int(L, "usize")
+    models = [(_re.compile(r"^core::str::<impl str>::len$"), m_str_len), (_re.compile(r"^bs58::decode$"), m_bs58_decode),
+              (_re.compile(r"DecodeBuilder<.*>::into_vec$|DecodeBuilder::into_vec$"), m_bs58_into_vec)] + MODELS
+    ex = Exec(P, models)
+    qr.cases += 1
+
+    def setup(ex):
+        ctx = Ctx()
+        ctx.p = z3.BitVec("prefix", 8)
+        ctx.h, harr = arr_bytes("addr_hash", 20, ctx)
+        cs = be_bytes(sha(seq_of([ctx.p] + ctx.h)), 32)[:4]
+        ctx.addr = Struct("P2PKHAddress", [Int(ctx.p, "u8"), harr, Arr([Int(t, "u8") for t in cs])])
+        ex._ctx = ctx
+        return "__address_roundtrip__", [], ctx
+    orig = ex.call_fn
+
+    def call_fn(name_, args, ex=ex, orig=orig):
+        if name_ != "__address_roundtrip__":
+            return orig(name_, args)
+        ctx = ex._ctx
+        s = orig(f_to, [Ptr([ctx.addr], 0)])
+        if s.variant != "Ok":
+            return Struct("tuple", [s, Opaque("none")])
+        return Struct("tuple", [s, orig(f_from, [Ptr([s.f[0]], 0)])])
+    ex.call_fn = call_fn
+    try:
+        res = ex.explore(setup)
+    except Unsupported as e:
+        qr.undecided.append(f"address string round trip: {e}")
+        res = []
+    reported = False
+    for r in res:
+        qr.paths += 1
+        c = r.ctx
+        bad, goal = None, z3.BoolVal(True)
+        if r.kind != "ok":
+            bad = f"{r.kind}: {r.msg.split(' @')[0][:80]}"
+        else:
+            s1, back = r.ret.f
+            if s1.variant != "Ok":
+                bad = "to_string fails"
+            elif back.variant != "Ok":
+                bad = "a valid address string produced by the library is rejected by from_string (addresses with leading zero bytes are shorter than 33 characters)"
+            else:
+                v = back.f[0]
+                neq = [v.f[0].t != c.p] + [e.t != w for e, w in zip(v.f[1].f, c.h)]
+                bad, goal = "the re-parsed address differs from the original (prefix or hash)", z3.Or(*neq)
+        se = SE.SeqEq(list(r.pc))
+        qr.queries += 1
+        rr = se._check(se.abstract(goal))
+        if rr == z3.unknown:
+            qr.undecided.append("address string round trip: solver unknown")
+        if bad is None or rr != z3.sat or reported:
+            continue
+        reported = True
+        m = se.s.model()
+        pv = bv_val(m, c.p)
+        hv = bytes(bv_val(m, x) for x in c.h)
+        if "rejected" in bad:
+            # a concrete short address: three leading zero bytes of the payload, then the smallest remainder
+            pv, hv = 0, bytes([0, 0, 1] + [0] * 17)
+        req = {"tx": {"version": 1, "locktime": 0, "inputs": [], "outputs": []}, "ops": [{"op": "address_fields", "hash": hv.hex(), "prefix": pv}]}
+        nat = {pr: C.Native.run(req, pr)[0] for pr in ("debug", "release")}
+        item = {"message": f"address (prefix {pv:#04x}, hash {hv.hex()}): {bad}", "request": req, "op_index": 0, "expected": "address re-parsed from its own string equals the address", "native": nat}
+        if any(not (v.get("ok") or {}).get("reparsed_equal", False) for v in nat.values()):
+            qr.violations.append(item)
+        else:
+            qr.undecided.append(item["message"] + " — not reproduced natively: " + json.dumps(nat)[:200])
+    finish(qr, ex)
+    qr.samples.append({"obligation": qr.name, "quantified": "all 256 prefixes x all 20-byte hashes"})
+    return qr
